@@ -30,7 +30,11 @@ Outcome == {"fin", "finmod", "fail", "raise"}
 FinalOf(o) == CASE o = "fin" -> "Fin" [] o = "finmod" -> "FinMod" [] OTHER -> "Fail"
 
 PInit == txid = 0 /\ reqs = <<>> /\ phist = <<>>
-Request(known, queued, o) ==
+\* idle: what happened in the operations worker since the previous request - "none": nothing; "quiet": it was idle long
+\* enough to run its time-out housekeeping; "raises": ... and the application's time-out handler of an operation raised.
+\* None of this has any effect on how requests are answered.
+Idle == {"none", "quiet", "raises"}
+Request(known, queued, o, idle) ==
   /\ Len(reqs) < MaxReq
   /\ txid' = txid + 1
   /\ LET f == FinalOf(o)
@@ -38,8 +42,8 @@ Request(known, queued, o) ==
               ELSE IF queued THEN [tx |-> txid + 1, resp |-> "Wait", reports |-> <<"Wait", "Start", f>>, err |-> o = "raise"]
               ELSE [tx |-> txid + 1, resp |-> f, reports |-> <<f>>, err |-> o = "raise"]
      IN reqs' = Append(reqs, r)
-  /\ phist' = Append(phist, [act |-> "Request", known |-> known, queued |-> queued, outcome |-> o])
-PNext == \E k \in BOOLEAN, q \in BOOLEAN, o \in Outcome : Request(k, q, o)
+  /\ phist' = Append(phist, [act |-> "Request", known |-> known, queued |-> queued, outcome |-> o, idle |-> idle])
+PNext == \E k \in BOOLEAN, q \in BOOLEAN, o \in Outcome, idle \in Idle : Request(k, q, o, idle)
 
 \* the response state followed by the reports, with a leading report that only repeats the response dropped
 Legal(resp, reps) ==
